@@ -41,13 +41,16 @@ func c05Gen(r *Rand, tier string) interface{} {
 	in := &c05In{Cipher: []string{"aes", "ext"}[r.Intn(2)], Disk: r.Chance(1, 4), HostOnly: r.Chance(1, 3)}
 	in.Secret = []string{"", "s", "correct horse battery staple"}[r.Intn(3)]
 	in.Salt = []string{"", "NaCl", strings.Repeat("salt", 20)}[r.Intn(3)]
-	switch r.Intn(6) {
+	switch r.Intn(7) {
 	case 0:
 		in.Plain = ""
 	case 1:
 		in.Plain = "x"
 	case 2:
 		in.Plain = c05Marker
+	case 3:
+		// around cipher block and buffer boundaries
+		in.Plain = (c05Marker + strings.Repeat("b", 5000))[:r.Pick(15, 16, 17, 31, 32, 33, 47, 48, 4095, 4096, 4097)]
 	default:
 		in.Plain = c05Marker + genContent(r, ":")
 	}
